@@ -186,6 +186,44 @@ def build():
                                    "implies(not has_key(done1, gk) and gk != '__type', gk not in out)"])},
                note="the type tag first (unless suppressed), then the keys of d -- in sorted order with key sorting, in d's own order otherwise -- each with d's value; nothing else. "
                     "Preconditions are the shape of a mashumaro field dict: distinct keys, none of them the type key; sorted_keys is assumed to return a duplicate-free list of the same keys"))
+    # ---- ASTNode.__post_serialize__: with no AST dialect option the node contributes exactly what the mixin builds -------------------------------
+    dialect_code = z3.Function("ast_dialect_option", OPTS.z3(), z3.IntSort())      # 0: the option is absent (or neither member), 1: AST_EXPLORER, 2: AST_TEST
+    DCODE = {"AST_EXPLORER": 1, "AST_TEST": 2}
+    sf["no_ast_dialect"] = lambda o: VBool(z3.And(dialect_code(o.term) != 1, dialect_code(o.term) != 2))
+    world.consts["AST_SERIALIZE_DIALECT_KEY"] = VStr("ast_serialize_dialect")
+
+    def attr_n(m, obj, name):
+        if isinstance(obj, VCls) and obj.name == "ASTSerializationDialects" and name in DCODE:
+            return VPy(("dialect_const", DCODE[name]))
+        if isinstance(obj, VPy) and isinstance(obj.obj, tuple) and obj.obj[0] == "super2" and name == "__post_serialize__":
+            return VPy(("super_post_serialize", obj.obj[1]))
+        return None
+
+    def call_n(m, func, a, kw, nd):
+        if isinstance(func, VPy) and func.obj == ("builtin", "super") and len(a) == 2:
+            return VPy(("super2", a[1]))
+        if isinstance(func, VPy) and isinstance(func.obj, tuple) and func.obj[0] == "super_post_serialize":
+            return m.call_contract(f"{M}:{C}.__post_serialize__", [func.obj[1]] + a, kw)
+        if isinstance(func, VBound) and isinstance(func.recv, VU) and func.recv.sort == OPTS and func.name == "get" and len(a) == 1 \
+                and isinstance(a[0], VStr) and z3.is_string_value(a[0].term) and a[0].term.as_string() == "ast_serialize_dialect":
+            return VPy(("dialect_value", func.recv.term))
+        return NotImplemented
+
+    def eq_n(m, x, y):
+        for p_, q_ in ((x, y), (y, x)):
+            if isinstance(p_, VPy) and isinstance(p_.obj, tuple) and p_.obj[0] == "dialect_value" and isinstance(q_, VPy) and isinstance(q_.obj, tuple) and q_.obj[0] == "dialect_const":
+                return dialect_code(p_.obj[1]) == q_.obj[1]
+        return None
+
+    world.attr_hooks.insert(0, attr_n)
+    world.call_hooks.insert(0, call_n)
+    world.eq_hooks.insert(0, eq_n)
+    world.name_hooks.append(lambda m, n: VCls(n) if n in ("ASTSerializationDialects", "ASTNode") else None)
+    mixin = reg.contracts[f"{M}:{C}.__post_serialize__"]
+    A(Contract("pyoak.node:ASTNode.__post_serialize__", params={"self": "SerObj", "d": "ODict[str,PyVal]"}, returns="ODict[str,PyVal]", props=P + ["C04"], globals={"OPTS": "Opts"},
+               ghost={"gk": "str"}, requires=list(mixin.requires) + ["no_ast_dialect(OPTS)"], ensures=list(mixin.ensures),
+               note="without one of the two AST dialect options (AST explorer: a `_children` list is added; AST test: the origin's source is blanked) a node contributes exactly "
+                    "the mapping DataClassSerializeMixin.__post_serialize__ builds -- type tag, then the field dict -- so what is read back is what was written"))
     # ---- the mixin's _serialize / _deserialize and Source._serialize ------------------------------------------------------------
     PAY = usort("Payload")
     to_dict = z3.Function("mashumaro_to_dict", OBJ.z3(), ODIA.z3(), PAY.z3())
@@ -268,7 +306,7 @@ def build():
         return None
 
     def call4(m, func, a, kw, nd):
-        if isinstance(func, VPy) and func.obj == ("builtin", "super"):
+        if isinstance(func, VPy) and func.obj == ("builtin", "super") and not a:
             return VPy(("super",))
         if isinstance(func, VPy) and func.obj == ("super_serialize",):
             return m.call_contract(f"{M}:{C}._serialize", [m.env["self"]], {})
